@@ -11,6 +11,8 @@ ops: get <w> <enc env> | peers <n> | peersfail | setcfg <j> | clear | wreload <w
      cget = k fresh workers at once; the model takes one linearisation: for i < k: wreload (100+i); get (100+i) env
      obs of cget: r=<slot ids>/<slot ids>/… (one list per worker) p=… c=… g=…
      peerset <n> | peersetfail | peercb : membership change and its callback as separate steps
+     peercb2 <n2> : two overlapping callbacks around a change to n2 peers; the list is read under the factory
+       mutex, so the commit order is the read order: model = peercb; peerset n2; peercb
      reload <w> <enc env> : real reloadConfigs; `ext order = a,b,c` is the observed order of clear / stress /
        signal; the model replays exactly that order: clear = .clear, stress = [wreload w if signalled] get w env,
        signal = every worker has a pending signal; afterwards every signalled worker does wreload, then all get env.
@@ -184,6 +186,11 @@ def oStep (o : OSt) (op : List String) (exts : List (List String)) : OSt × Opti
   | ["peerset", n] => match n.toNat? with | some n => go (.peerset n) | none => (o, some "bad-op")
   | ["peersetfail"] => go .peersetFail
   | ["peercb"] => go .peercb
+  | ["peercb2", n] => match n.toNat? with
+    | some n =>
+      let st' := step o.cfgs (step o.cfgs (step o.cfgs o.st .peercb) (.peerset n)) .peercb
+      ({ o with st := st' }, some (tailStr st'))
+    | none => (o, some "bad-op")
   | ["reload", w, e] =>
     match w.toNat?, reloadOrder exts with
     | some w, some order =>
@@ -418,6 +425,10 @@ def mStep (m : MSt) (op : List String) (exts : List (List String)) (obs : Option
   | ["peersetfail"] => ({ m with src := none, dirty := true }, [])
   | ["peercb"] =>
     let m' := monCallback m
+    (m', c13Check m' goals)
+  | ["peercb2", n] =>
+    let m1 := monCallback m
+    let m' := monCallback { m1 with src := some (n.toNat?.getD 0), dirty := true }
     (m', c13Check m' goals)
   | ["setcfg", j] =>
     let m' := match m.cfgs[j.toNat?.getD 0]? with | some c => { m with cfg := c } | none => m
